@@ -3,14 +3,17 @@ CONSTANTS
   MaxAdds = 2
   Ticks = {1000, 2000, 3000}
   MaxLen = 2
-  MaxLenI = 2
+  MaxLenI = 1
   MaxSets = 1
   Tols = {10}
-  Kinds = {"float", "text"}
+  Kinds = {"float"}
   Assocs = {"V", "C"}
   Owns = {FALSE}
   PGs = {0}
-  AllowCopy = FALSE
-  Deviations = {"TextMatchTruncated"}
-INVARIANT ValuesAttached
+  AllowCopy = TRUE
+  Deviations = {}
+VIEW vw
+INVARIANT ExportPos
+INVARIANT ExportState
+ACTION_CONSTRAINT ExportTrans
 CHECK_DEADLOCK FALSE
